@@ -182,24 +182,33 @@ static carquet_status_t ensure_capacity(carquet_column_index_builder_t* builder)
 
     int32_t new_cap = builder->capacity * 2;
 
+    /* Every block that realloc moved is committed at once: after a failure the
+     * builder must still own exactly the blocks it points to (capacity is only
+     * raised when all six arrays have grown). */
     int64_t* new_null_counts = realloc(builder->null_counts, new_cap * sizeof(int64_t));
-    uint8_t** new_min_values = realloc(builder->min_values, new_cap * sizeof(uint8_t*));
-    int32_t* new_min_lens = realloc(builder->min_value_lens, new_cap * sizeof(int32_t));
-    uint8_t** new_max_values = realloc(builder->max_values, new_cap * sizeof(uint8_t*));
-    int32_t* new_max_lens = realloc(builder->max_value_lens, new_cap * sizeof(int32_t));
-    bool* new_null_pages = realloc(builder->null_pages, new_cap * sizeof(bool));
-
-    if (!new_null_counts || !new_min_values || !new_max_values ||
-        !new_min_lens || !new_max_lens || !new_null_pages) {
-        return CARQUET_ERROR_OUT_OF_MEMORY;
-    }
-
+    if (!new_null_counts) return CARQUET_ERROR_OUT_OF_MEMORY;
     builder->null_counts = new_null_counts;
+
+    uint8_t** new_min_values = realloc(builder->min_values, new_cap * sizeof(uint8_t*));
+    if (!new_min_values) return CARQUET_ERROR_OUT_OF_MEMORY;
     builder->min_values = new_min_values;
+
+    int32_t* new_min_lens = realloc(builder->min_value_lens, new_cap * sizeof(int32_t));
+    if (!new_min_lens) return CARQUET_ERROR_OUT_OF_MEMORY;
     builder->min_value_lens = new_min_lens;
+
+    uint8_t** new_max_values = realloc(builder->max_values, new_cap * sizeof(uint8_t*));
+    if (!new_max_values) return CARQUET_ERROR_OUT_OF_MEMORY;
     builder->max_values = new_max_values;
+
+    int32_t* new_max_lens = realloc(builder->max_value_lens, new_cap * sizeof(int32_t));
+    if (!new_max_lens) return CARQUET_ERROR_OUT_OF_MEMORY;
     builder->max_value_lens = new_max_lens;
+
+    bool* new_null_pages = realloc(builder->null_pages, new_cap * sizeof(bool));
+    if (!new_null_pages) return CARQUET_ERROR_OUT_OF_MEMORY;
     builder->null_pages = new_null_pages;
+
     builder->capacity = new_cap;
 
     /* Initialize new entries */
@@ -344,16 +353,17 @@ static carquet_status_t offset_ensure_capacity(carquet_offset_index_builder_t* b
 
     int32_t new_cap = builder->capacity * 2;
 
+    /* Commit each grown block at once (see ensure_capacity above) */
     int64_t* new_offsets = realloc(builder->offsets, new_cap * sizeof(int64_t));
-    int32_t* new_compressed = realloc(builder->compressed_sizes, new_cap * sizeof(int32_t));
-    int64_t* new_first_rows = realloc(builder->first_row_indices, new_cap * sizeof(int64_t));
-
-    if (!new_offsets || !new_compressed || !new_first_rows) {
-        return CARQUET_ERROR_OUT_OF_MEMORY;
-    }
-
+    if (!new_offsets) return CARQUET_ERROR_OUT_OF_MEMORY;
     builder->offsets = new_offsets;
+
+    int32_t* new_compressed = realloc(builder->compressed_sizes, new_cap * sizeof(int32_t));
+    if (!new_compressed) return CARQUET_ERROR_OUT_OF_MEMORY;
     builder->compressed_sizes = new_compressed;
+
+    int64_t* new_first_rows = realloc(builder->first_row_indices, new_cap * sizeof(int64_t));
+    if (!new_first_rows) return CARQUET_ERROR_OUT_OF_MEMORY;
     builder->first_row_indices = new_first_rows;
 
     if (builder->track_uncompressed) {
